@@ -79,7 +79,7 @@ def run(repo, rep):
     # predicates: user predicate calls also run under the wrapper
     # ---------------------------------------------------------------- C14.b
     n = 0
-    warn = m.funcs.get('_warn_about_bad_printer')
+    warn = m.funcs.get(__import__('engine.roles', fromlist=['x']).name(repo, 'warn_helper'))
     if warn is None:
         # role: the function called in handlers with exc=
         for f in m.funcs.values():
@@ -88,7 +88,7 @@ def run(repo, rep):
                 warn = f
     if warn is None:
         raise AnalysisError('warning helper for failing printers vanished')
-    handled_fns = {f.key: f for f, _, _ in sites if f.module is m and f.name != '_repr_pretty'}
+    handled_fns = {f.key: f for f, _, _ in sites if f.module is m and f.name != __import__('engine.roles', fromlist=['x']).name(repo, 'base_printer')}
     for f in handled_fns.values():
         par = enclosing_map(f.node)
         result_var = None
